@@ -3,7 +3,10 @@
 Space: every rooted digraph (entry = node 0, all nodes reachable, self-loops allowed) on 1..4 labelled nodes
 (thorough: 5 nodes, all 2^25 edge sets filtered by reachability); every rooted graph on 1..3 nodes with each ordered
 pair in {absent, normal edge, catch edge}; every insertion order of the successor lists for <= 3 nodes (thorough: 4)
--- the order drives the DFS inside dom_lt; the CFG of every method of the shipped DEX files after graph.construct.
+-- the order drives the DFS inside dom_lt; the CFG of every method of the shipped DEX files after graph.construct;
+HISTORIES on one Graph object: build a <=3-node graph (normal and catch edges; a reduced 4-node set), query, apply one
+(thorough: two) mutation(s) of the Graph API {add_edge, add_catch_edge, remove_node, entry change} that keep the graph
+rooted, query after each: every answer must be the dominator tree of the graph as it is at that moment.
 Each is built as a REAL androguard `Graph` (add_edge / add_catch_edge, real StatementBlock nodes) and
 `Graph.immediate_dominators()` is compared with ref/domtree.py (definition by node removal over edges U catch edges).
 """
@@ -54,6 +57,13 @@ def shards(ctx):
     for name in D.dex_files(ctx):
         parts = 8 if name.endswith("classes.dex") else 1
         s += [("dex", name, k, parts) for k in range(parts)]
+    # histories on ONE Graph object: query, mutate through the API, query again (the answer must follow the graph)
+    depth = 2 if ctx.thorough else 1
+    s += [("hist", "bin", 1, 0, 2, 1, depth), ("hist", "bin", 2, 0, 16, 1, depth)]
+    s += [("hist", "bin", 3, lo, lo + 128, 1, depth) for lo in range(0, 512, 128)]
+    s += [("hist", "tri", 1, 0, 1, 1, depth), ("hist", "tri", 2, 0, 1, 1, depth)]
+    s += [("hist", "tri", 3, k, 16, 4 if ctx.thorough else 1, depth) for k in range(16)]
+    s += [("hist", "bin", 4, lo, lo + 4096, 1 if ctx.thorough else 8, 1) for lo in range(0, 1 << 16, 4096)]
     if ctx.thorough:
         s += [("ord", 4, lo, lo + 256) for lo in range(0, 1 << 16, 256)]
         s += [("bin", 5, lo, lo + CH5) for lo in range(0, 1 << 25, CH5)]
@@ -134,11 +144,88 @@ def one_enum(acc, nodes, n, edges, fam, stats=True):
     return want
 
 
+def got_as_indices(g, nodes):
+    pos = {nd: i for i, nd in enumerate(nodes)}
+    try:
+        return {pos.get(k, repr(k)): (None if v is None else pos.get(v, repr(v)))
+                for k, v in g.immediate_dominators().items()}
+    except Exception as e:      # noqa
+        return "raised %s" % e
+
+
+def run_history(n, edges, ops):
+    """One Graph object: build, query, then for each op: mutate through the Graph API and query again.
+    Returns None or (name of the op after which the answer is wrong | 'initial', message)."""
+    nodes = D.make_nodes(n)
+    g = D.build(nodes, edges)
+    alive, medges, entry = list(range(n)), [(e[0], e[1], e[2] if len(e) > 2 else "n") for e in edges], 0
+    msg = judge(g, nodes, G.rows_of_edges(n, edges))[0]
+    if msg:
+        return "initial", msg
+    for i, op in enumerate(ops):
+        op = tuple(op)
+        D.apply_real(g, nodes, op)
+        alive, medges, entry = D.apply_model(alive, medges, entry, op)
+        sub_nodes, rows, sub_edges, e = D.sub_view(n, nodes, alive, medges, entry)
+        msg = judge(g, sub_nodes, rows, e)[0]
+        if msg:
+            fresh_nodes = D.make_nodes(len(alive))
+            fresh = D.build(fresh_nodes, sub_edges, e)
+            return op[0], ("graph n=%d edges=%s, queried, then %s -> live nodes %s edges %s entry %d; second query on the "
+                           "SAME Graph object: %s  [nodes renumbered %s; a freshly built Graph of that shape answers %s]"
+                           % (n, edges, [list(o) for o in ops[:i + 1]], alive, medges, entry, msg,
+                              {x: k for k, x in enumerate(alive)}, got_as_indices(fresh, fresh_nodes)))
+    return None
+
+
+def explore_history(acc, n, edges, depth):
+    alive, medges, entry = list(range(n)), [(e[0], e[1], e[2] if len(e) > 2 else "n") for e in edges], 0
+    seqs = [[op] for op in D.candidate_ops(n, alive, medges, entry)]
+    if depth >= 2:
+        seqs2 = []
+        for (op,) in seqs:
+            a2, e2, en2 = D.apply_model(alive, medges, entry, op)
+            seqs2 += [[op, op2] for op2 in D.candidate_ops(n, a2, e2, en2)]
+        seqs += seqs2
+    for ops in seqs:
+        res = run_history(n, edges, ops)
+        acc.n += 1
+        acc.nt_disjoint += 1
+        acc.count("histories")
+        acc.count("history_ops_" + ops[-1][0])
+        if res:
+            acc.violation("idom:after:%s" % res[0],
+                          {"fam": "hist", "n": n, "edges": [list(e) for e in edges], "ops": [list(o) for o in ops]}, res[1])
+
+
+def run_hist(ctx, shard, acc):
+    _, fam, n, a, b, stride, depth = shard
+    k = 0
+    if fam == "bin":
+        for mask in G.rooted_masks(n, a, b):
+            k += 1
+            if k % stride == 0:
+                explore_history(acc, n, G.edge_list(n, mask), depth)
+    else:
+        for i, edges in enumerate(G.rooted_tri(n)):
+            if i % b != a or not any(e[2] == "c" for e in edges):
+                continue
+            k += 1
+            if k % stride == 0:
+                explore_history(acc, n, edges, depth)
+    if fam == "bin" and n == 3 and a == 0:
+        acc.sample({"family": "history on one Graph object", "n": 3, "edges": [[0, 1], [1, 2]],
+                    "ops": [["add_catch_edge", 0, 2]]})
+    return acc
+
+
 def run_shard(ctx, shard):
     acc = Acc()
     kind = shard[0]
     if kind == "dex":
         return run_dex(ctx, shard, acc)
+    if kind == "hist":
+        return run_hist(ctx, shard, acc)
     n = shard[1]
     nodes = D.make_nodes(n)
     if kind == "bin":
@@ -210,6 +297,9 @@ def judge_dex(dm):
 
 
 def replay(ctx, w):
+    if w["fam"] == "hist":
+        res = run_history(w["n"], [tuple(e) for e in w["edges"]], w["ops"])
+        return res[1] if res else None
     if w["fam"] == "dex":
         for idx, label, dm in D.dex_methods(ctx, w["file"]):
             if idx == w["index"]:
@@ -227,7 +317,8 @@ def finalize(ctx, acc):
     if len(acc.outcomes) < 20:
         acc.harness_error("vacuity: only %d distinct dominator trees seen" % len(acc.outcomes))
     for name in ("graphs_irreducible", "graphs_reducible", "graphs_dag", "graphs_with_self_loop",
-                 "graphs_with_catch_edge", "dex_methods"):
+                 "graphs_with_catch_edge", "dex_methods", "history_ops_add_edge", "history_ops_add_catch_edge",
+                 "history_ops_remove_node", "history_ops_set_entry"):
         if not ex.get(name):
             acc.harness_error("vacuity: counter %s is zero" % name)
     # closed form for the number of rooted digraphs is not used; cross-check the enumerator against itself instead:
